@@ -1,4 +1,5 @@
 import DclabModel.Model.Check
+import DclabModel.Model.CheckLevels
 import DclabModel.DriveUtil
 /-! Line-protocol driver for the integrity-check model (C13).  Names are blank-free tokens
     (the harness percent-encodes blanks and `:`).
@@ -7,13 +8,18 @@ import DclabModel.DriveUtil
     cfg <sec> <key> <p/q | p | s>         metadata value (`s` = text / array)             → ok
     len <n>                               next entry of `lenOrder`                        → ok
     ev <name> <len> | tr <name> <len> <width> | img <name> <h> <w> | h5 <name> <0|1>      → ok
-    index <a,b,…|->                       stored index values                             → ok
+    index <a,b,c-d,…|->                   stored index values (`c-d` = the run c, c+1, …, d)  → ok
     ext <0|1> | poly <key> <rows> <cols> | basin <common 0|1> <feats|-> | be <names|->    → ok
     flag <ml|temp>                                                                        → ok
     rect <firstLen|-> <firstTraceWidth|-> <h,w|->   inputs of rectify_metadata            → ok
     viol | violcopy | violcompress        → sorted cue identifiers, or `raises` (F36: size unknown)
     oldindexraises                        → 0|1 (behaviour before F13)
     exit <alerts> <violations>            → exit status of dclab-verify-dataset
+    alerts                                → sorted identifiers of the modelled alert-level cues
+    info                                  → fl:<0|1> (info cue `Fluorescence: …`)
+    exitof <extra>                        → exit status for the described file with <extra> unmodelled alerts
+    indexok                               → <exact 0|1> <tolerant 0|1> (`-` without stored index)
+    violexport <m> <*|-|names>            → cue identifiers of `exportD d keep m` (or `raises`)
 -/
 open DclabModel.Check DclabModel.DriveUtil
 
@@ -36,11 +42,24 @@ def showCue : Cue → String
   | .mlClass => "mlClass"
   | .tempZero => "tempZero"
 
+def showACue : ACue → String
+  | .missingSection s => "missingSection:" ++ s
+  | .missingKey s k => "missingKey:" ++ s ++ ":" ++ k
+  | .unusedKey k => "unusedKey:" ++ k
+  | .tempKey => "tempKey"
+  | .empty => "empty"
+  | .uncommonBasinPath => "uncommonBasinPath"
+  | .flowRates => "flowRates"
+
 def enc (s : String) : String := s.replace " " "%20"
 def dec (s : String) : String := s.replace "%20" " "
 
 def showCues (cs : List Cue) : String :=
   let xs := (cs.map fun c => enc (showCue c)).toArray.qsort (· < ·)
+  if xs.isEmpty then "-" else joinWith " " xs.toList
+
+def showACues (cs : List ACue) : String :=
+  let xs := (cs.map fun c => enc (showACue c)).toArray.qsort (· < ·)
   if xs.isEmpty then "-" else joinWith " " xs.toList
 
 def parseVal (s : String) : Option Val :=
@@ -51,6 +70,16 @@ def parseVal (s : String) : Option Val :=
     let z ← parseInt? p
     let d ← q.toNat?
     some (some (z, d))
+  | _ => none
+
+/-- `a` or a run `a-b` (the values `a, a+1, …, b`; run-length form of long stored indices) -/
+def parseRun (s : String) : Option (List Nat) :=
+  match s.splitOn "-" with
+  | [a] => a.toNat?.map fun a => [a]
+  | [a, b] => do
+    let a ← a.toNat?
+    let b ← b.toNat?
+    if a ≤ b then some (List.range' a (b - a + 1)) else none
   | _ => none
 
 def optNat (s : String) : Option (Option Nat) := if s = "-" then some none else s.toNat?.map some
@@ -76,8 +105,8 @@ def handle (d : D) (line : String) : D × String :=
     | _, _ => (d, "bad-op")
   | ["h5", name, k] => ({ d with h5events := d.h5events ++ [(dec name, k == "1")] }, "ok")
   | ["index", xs] =>
-    match (if xs = "-" then some [] else (xs.splitOn ",").mapM (·.toNat?)) with
-    | some xs => ({ d with index := some xs }, "ok")
+    match (if xs = "-" then some [] else (xs.splitOn ",").mapM parseRun) with
+    | some xs => ({ d with index := some xs.flatten }, "ok")
     | none => (d, "bad-op")
   | ["ext", b] => ({ d with external := b == "1" }, "ok")
   | ["poly", key, r, c] => match r.toNat?, c.toNat? with
@@ -104,6 +133,23 @@ def handle (d : D) (line : String) : D × String :=
   | ["violcompress"] =>
     (d, if sizeUndetermined (cfgGet (compressD d).cfg) (compressD d) then "raises"
         else showCues (violations (compressD d)))
+  | ["alerts"] =>
+    (d, if sizeUndetermined (cfgGet d.cfg) d then "raises" else showACues (alerts d))
+  | ["info"] => (d, if infoFl d then "fl:1" else "fl:0")
+  | ["exitof", extra] => match extra.toNat? with
+    | some e => (d, if sizeUndetermined (cfgGet d.cfg) d then "raises" else toString (exitOf d e))
+    | none => (d, "bad-op")
+  | ["indexok"] => match d.index with
+    | none => (d, "-")
+    | some xs =>
+      let n := lends (cfgGet d.cfg) d
+      (d, (if indexOk xs n then "1" else "0") ++ " " ++ (if indexOkTol xs n then "1" else "0"))
+  | ["violexport", m, keep] => match m.toNat? with
+    | some m =>
+      let ks := names keep
+      let e := exportD d (fun f => keep == "*" || ks.contains f) m
+      (d, if sizeUndetermined (cfgGet e.cfg) e then "raises" else showCues (violations e))
+    | none => (d, "bad-op")
   | ["oldindexraises"] => (d, if indexCheckRaisedOld (cfgGet d.cfg) d then "1" else "0")
   | ["exit", a, v] => match a.toNat?, v.toNat? with
     | some a, some v => (d, toString (exitCode a v))
